@@ -180,7 +180,8 @@ ENTRIES["C19"] = {
     "text": ("spec/Pcap.tla states what the capture must contain: one record per first-hop transmission in order, timestamp = "
              "virtual time, IPv4 + UDP/TCP headers with the right endpoints and lengths, TCP sequence number = bytes previously "
              "transmitted in that direction of that connection (retransmissions repeat it), payload unchanged. TLC checks the "
-             "bounded model and validates the parsed capture of every recorded TCP/UDP run, including a 2.5-hour (virtual) run "
+             "bounded model and validates the parsed capture of every recorded TCP / UDP run and of runs that mix connections with "
+             "datagrams among the same nodes in one capture, including a 2.5-hour (virtual) run "
              "for the 32-bit seconds/microseconds split."),
     "note": ("Trusted: TLC; the struct-level pcap parser in lib/checks.py (written from the file-format definition, shares no code "
              "with pcap.cpp); first-hop probe sinks. IPv4 only; datagrams that fit one IPv4 packet."),
